@@ -66,16 +66,20 @@ def make_cases(ctx):
             "cr_without_pha_ext", "cert_unknown_context", "ccs_post_13",
             "nst_to_server", "hb_declared_longer", "hb_short_padding",
             "finished_post_handshake", "cr_to_server",
-            "pha_bad_finished", "pha_bad_signature", "pha_no_verify"]
+            "pha_bad_finished", "pha_bad_signature", "pha_no_verify",
+            "pha_replay_answer"]
     for k in negs:
         for r in range(ctx.pick(2, 10)):
             yield "neg-%s-%d" % (k, r), dict(neg=k, r=r)
 
 
-def establish(rng, ver, with_tickets, ckey, hb=True, suite=None):
-    # sending heartbeat requests needs a response callback in the settings
+def establish(rng, ver, with_tickets, ckey, hb=True, suite=None,
+              client_cb=True):
+    # sending heartbeat requests needs a response callback in the settings;
+    # an endpoint without one still has to answer the peer's requests
     ckw = dict(use_heartbeat_extension=hb,
-               heartbeat_response_callback=(lambda m: None) if hb else None)
+               heartbeat_response_callback=(lambda m: None)
+               if hb and client_cb else None)
     skw = dict(use_heartbeat_extension=hb,
                heartbeat_response_callback=(lambda m: None) if hb else None)
     if with_tickets:
@@ -113,7 +117,9 @@ def run_history(ctx, cid, P):
     suite = rng.choice(T13) if t13 else None
     ckey = rng.choice([None, "rsa", "ecdsa"]) if t13 else None
     tickets = rng.random() < 0.6
-    p, tc, ts = establish(rng, ver, tickets, ckey, True, suite)
+    client_cb = rng.random() < 0.7
+    p, tc, ts = establish(rng, ver, tickets, ckey, True, suite,
+                          client_cb=client_cb)
     if tc.status != "done" or ts.status != "done":
         ctx.violation({"clause": "control_handshake_failed",
                        "ver": pair.VNAME[ver]},
@@ -129,6 +135,10 @@ def run_history(ctx, cid, P):
     sec0 = (bytes(p.c.session.cl_app_secret or b""),
             bytes(p.c.session.sr_app_secret or b"")) if t13 else None
     for e in (C, S):
+        if e is C and not client_cb:
+            ctx.count("client_without_heartbeat_callback")
+            continue
+
         def cb(msg, e=e):
             e.hb_got.append(bytes(msg.payload))
         e.conn.heartbeat_response_callback = cb
@@ -367,6 +377,10 @@ def run_pha_negative(ctx, cid, P):
     st = {}
 
     def rw(i, t, msg, raw):
+        if k == "pha_replay_answer":
+            if t in (11, 25, 15, 20) and not st.get("replaying"):
+                st.setdefault("flight", []).append(bytes(raw))
+            return None
         if k == "pha_bad_finished" and t == 20:
             st["hit"] = True
             b = bytearray(raw)
@@ -393,6 +407,36 @@ def run_pha_negative(ctx, cid, P):
         r = yield from drive.aread(p.c, None, 0)
         return r
     t2c, t2s = p.run(cprog(), sprog())
+    if k == "pha_replay_answer":
+        # the request was answered honestly; the same answer (same context,
+        # still a valid signature and Finished for that transcript) is now
+        # sent again without a request
+        if t2s.status != "done" or p.s.session.clientCertChain is None or \
+                len(st.get("flight", [])) != 3:
+            ctx.inconc("honest post-handshake authentication failed in %s: "
+                       "%r %r" % (cid, t2c.exc, t2s.exc))
+            return
+        st["hit"] = True
+
+        st["replaying"] = True
+
+        def again():
+            for raw in list(st["flight"]):
+                for r in p.c._sendMsg(adv.Raw(22, raw)):
+                    yield r
+            yield from drive.awrite(p.c, b"data-after")
+        t2c = drive.Task("again", again(), p.csock)
+        drive.run([t2c], p.link)
+        got = bytearray()
+        for _ in range(4):
+            t2s = drive.Task("vic", drive.aread(p.s, None, 1), p.ssock)
+            drive.run([t2s], p.link, max_steps=5000)
+            if t2s.status != "done" or not t2s.result:
+                break
+            got += t2s.result
+            if bytes(got) == b"data-after":
+                break
+        p.s.session.clientCertChain = None   # judged below: alert expected
     ctx.ev()
     ctx.count("negatives")
     key = {"neg": k, "victim": "server", "ver": "TLS1.3"}
